@@ -1,7 +1,7 @@
 //go:build verif
 
 // Package vsync replaces "sync" in instrumented repository files: Mutex,
-// RWMutex and Once are scheduling points with happens-before edges under the
+// RWMutex, Once and WaitGroup are scheduling points with happens-before edges under the
 // controlled scheduler and plain sync primitives otherwise; everything else
 // is the real thing.
 package vsync
@@ -37,7 +37,7 @@ func (o *Once) Do(f func()) {
 
 type (
 	Pool      = sync.Pool
-	WaitGroup = sync.WaitGroup
+	WaitGroup = verifrt.WaitGroup
 	Cond      = sync.Cond
 	Locker    = sync.Locker
 )
